@@ -35,19 +35,41 @@ const (
 // c20g2rebuilt: every leaf of v (through phis) is the key rebuilt from a
 // progress slice: result 0 of shamir.Combine, element [0] of a progress field
 // (the threshold-1 shortcut), or a fresh buffer (the copy of that element).
-func c20g2rebuilt(v ssa.Value) (bool, string) {
+func c20g2rebuilt(v ssa.Value) (bool, string) { return c20g2rebuiltD(v, 0) }
+
+func c20g2rebuiltD(v ssa.Value, depth int) (bool, string) {
 	for _, l := range c17leaves(v) {
 		l = c17strip(l)
 		switch x := l.(type) {
 		case *ssa.Extract:
-			if k, ok := x.Tuple.(*ssa.Call); ok && x.Index == 0 && eng.CalleeName(k.Common()) == "shamir.Combine" {
-				continue
+			if k, ok := x.Tuple.(*ssa.Call); ok && x.Index == 0 {
+				if eng.CalleeName(k.Common()) == "shamir.Combine" {
+					continue
+				}
+				// a helper of package vault that itself returns nothing but a rebuilt key
+				if fn := k.Common().StaticCallee(); fn != nil && depth == 0 && eng.InPkg(fn, "vault") && len(fn.Blocks) > 0 {
+					good, n := true, 0
+					for _, r := range eng.Returns(fn) {
+						if r.Block().Comment == "recover" || len(r.Results) == 0 || eng.AllNilThroughPhi(r.Results[0]) {
+							continue
+						}
+						n++
+						ok, _ := c20g2rebuiltD(r.Results[0], 1)
+						good = good && ok
+					}
+					if good && n > 0 {
+						continue
+					}
+				}
 			}
 		case *ssa.MakeSlice:
 			continue
 		case *ssa.UnOp:
 			if ia, ok := x.X.(*ssa.IndexAddr); ok && x.Op == token.MUL {
 				if k, ok := ia.Index.(*ssa.Const); ok && k.Value != nil && k.Int64() == 0 {
+					if _, isPar := c17strip(ia.X).(*ssa.Parameter); isPar && depth > 0 {
+						continue
+					}
 					if ld, ok := ia.X.(*ssa.UnOp); ok && ld.Op == token.MUL {
 						if fa, ok := ld.X.(*ssa.FieldAddr); ok {
 							if fv := eng.FieldVar(fa); fv != nil && strings.HasSuffix(fv.Name(), "Progress") || fv != nil && fv.Name() == "Parts" {
